@@ -21,11 +21,11 @@ META = {
     "text": "Every exported function of bindings/c (298 on the pinned tree) is symbolically evaluated from clang's AST into a Coq table (C parameters, C++ callee with its declared "
             "parameter names/defaults, per-argument routing, placement-news, plain news, deletes, callbacks, result conversion; to_c/from_c casts and enum switch tables). "
             "Coq theorems: wrappers_faithful (every entry passes the routing checker: arguments routed by normalised name in declaration order, x,y,z component order, reviewed "
-            "exception lists, exactly one placement-new into mem of the handle's C++ type, no other allocation/free, callbacks get ctx unchanged), families_consistent "
+            "exception lists, exactly one placement-new into mem of the handle's C++ type, no other allocation/free, callbacks get ctx unchanged), options_marshalled_faithfully (every `if (opt->G) result->M = copy(opt->S, L)` block of the *_w_options functions guards on the field it copies and routes it to the reviewed MeshGL member/length; every array field copied exactly once), families_consistent "
             "(X_size/alloc_X/destruct_X/delete_X use the one C++ type from_c maps the handle to), enum_tables_bijective + enum_roundtrip, lifecycle_safe(_for_table): for all programs "
             "of API calls honouring the header's contract, run against wrappers with the advertised memory behaviour (derived from wrapper_ok for table entries), no double destruction, "
             "no use after destruction, no overflow of caller storage, nothing left at exit; each object destroyed exactly once. Tie: the harness generated from the same table calls "
-            "every C function and the C++ call it names (arguments routed by the specification, not by the wrapper) on >= 4 distinct-valued tuples and in random mirrored call programs, "
+            "every C function and the C++ call it names (arguments routed by the specification, not by the wrapper) on >= 4 distinct-valued tuples (option structs: all 32 NULL/non-NULL combinations of their arrays, every MeshGL field and the caller-supplied original IDs after a round trip through Manifold compared exactly) and in random mirrored call programs, "
             "comparing MeshGL64 bit patterns, polygons, scalars, status codes, storage identity, under ASan/UBSan/LeakSanitizer.",
     "note": "Trusted: Coq kernel/vm_compute; the translator's reading of clang's AST (cross-checked dynamically by the harness, which does not use the wrapper's routing); the harness generator; "
             "sanitizers as witness finders. The heap model abstracts each call to (placement-constructions, plain news, deletes) as counted syntactically in the wrapper body; memory safety "
@@ -446,18 +446,42 @@ def meshgl_specials():
         S["manifold_meshgl%s_w_tangents" % suf] = pre + r'''
   auto* rc = manifold_meshgl%(suf)s_w_tangents(mem, vp.data(), nv, np, tv.data(), nt, tang.data());
   %(M)s rx; rx.numProp = np; rx.vertProperties = vp; rx.triVerts = tv; rx.halfedgeTangent = tang;''' % dict(M=M, suf=suf) + post
+        # t is a bit mask over the optional arrays (the power set of NULL / non-NULL fields):
+        # 1 run_indices, 2 run_original_ids, 4 merge_from_vert, 8 merge_to_vert, 16 halfedge_tangents
         S["manifold_meshgl%s_w_options" % suf] = pre + r'''
-  std::vector<%(I)s> ri = {0, (%(I)s)(3 * (nt / 2)), (%(I)s)(3 * nt)}; std::vector<uint32_t> ro = {7, 9};
+  int mask = t & 31;
+  uint32_t base = Manifold::ReserveIDs(2);                     // caller-owned original IDs
+  std::vector<%(I)s> ri = {0, (%(I)s)(3 * (nt / 2)), (%(I)s)(3 * nt)};
+  std::vector<uint32_t> ro = {base}; if (mask & 1) ro.push_back(base + 1);   // one ID per run
   std::vector<%(I)s> mf = {1, 2}, mt = {0, 3};
   Manifold%(M)sOptions o; memset(&o, 0, sizeof o);
-  if (t %% 2 == 0) { o.run_indices = ri.data(); o.run_indices_length = ri.size(); o.run_original_ids = ro.data(); o.run_original_ids_length = ro.size(); }
-  if (t %% 3 != 1) { o.merge_from_vert = mf.data(); o.merge_to_vert = mt.data(); o.merge_verts_length = mf.size(); }
-  if (t >= 2) o.halfedge_tangents = tang.data();
+  if (mask & 1) { o.run_indices = ri.data(); o.run_indices_length = ri.size(); }
+  if (mask & 2) { o.run_original_ids = ro.data(); o.run_original_ids_length = ro.size(); }
+  if (mask & 4) o.merge_from_vert = mf.data();
+  if (mask & 8) o.merge_to_vert = mt.data();
+  if (mask & 12) o.merge_verts_length = mf.size();
+  if (mask & 16) o.halfedge_tangents = tang.data();
+  r.args = std::string("mesh=%(pool)s#") + std::to_string(t) + " options{run_indices=" + ((mask & 1) ? "set" : "NULL") + " run_original_ids=" + ((mask & 2) ? "set" : "NULL") +
+           " merge_from_vert=" + ((mask & 4) ? "set" : "NULL") + " merge_to_vert=" + ((mask & 8) ? "set" : "NULL") + " halfedge_tangents=" + ((mask & 16) ? "set" : "NULL") + "}";
   auto* rc = manifold_meshgl%(suf)s_w_options(mem, vp.data(), nv, np, tv.data(), nt, &o);
   %(M)s rx; rx.numProp = np; rx.vertProperties = vp; rx.triVerts = tv;
-  if (t %% 2 == 0) { rx.runIndex = ri; rx.runOriginalID = ro; }
-  if (t %% 3 != 1) { rx.mergeFromVert = mf; rx.mergeToVert = mt; }
-  if (t >= 2) rx.halfedgeTangent = tang;''' % dict(M=M, I=I, suf=suf) + post
+  if (mask & 1) rx.runIndex = ri;
+  if (mask & 2) rx.runOriginalID = ro;
+  if (mask & 4) rx.mergeFromVert = mf;
+  if (mask & 8) rx.mergeToVert = mt;
+  if (mask & 16) rx.halfedgeTangent = tang;
+  { const %(M)s& cm = *reinterpret_cast<%(M)s*>(rc);       // every field, exactly (no renaming of IDs: the caller chose them)
+    r.eq("numProp", (size_t)cm.numProp, (size_t)rx.numProp); r.eq("vertProperties", cm.vertProperties, rx.vertProperties);
+    r.eq("triVerts", cm.triVerts, rx.triVerts); r.eq("runIndex", cm.runIndex, rx.runIndex);
+    r.eq("runOriginalID", cm.runOriginalID, rx.runOriginalID); r.eq("mergeFromVert", cm.mergeFromVert, rx.mergeFromVert);
+    r.eq("mergeToVert", cm.mergeToVert, rx.mergeToVert); r.eq("halfedgeTangent", cm.halfedgeTangent, rx.halfedgeTangent);
+    r.eq("runTransform", cm.runTransform, rx.runTransform); r.eq("faceID", cm.faceID, rx.faceID); r.eq("runFlags", cm.runFlags, rx.runFlags);
+    // round trip through Manifold: same status, same mesh, and the caller's original IDs come back out
+    Manifold mc(cm); Manifold mx(rx);
+    r.eq("Manifold status", (int)mc.Status(), (int)mx.Status());
+    auto oc = mc.GetMeshGL%(suf)s(); auto ox = mx.GetMeshGL%(suf)s();
+    if (mask & 2) r.eq("runOriginalID after Manifold round trip (caller-supplied)", oc.runOriginalID, ox.runOriginalID);
+    r.eq("mesh after Manifold round trip", oc, ox); }''' % dict(M=M, I=I, suf=suf, pool=pool) + post
         S["manifold_meshgl%s_merge" % suf] = r'''
   %(M)s c_m = pick(P.%(pool)s, t); c_m.mergeFromVert.clear(); c_m.mergeToVert.clear(); %(M)s x_m = c_m;
   void* mem = caller_mem(manifold_meshgl%(suf)s_size());
@@ -605,7 +629,10 @@ def generate_harness(T, path, ntuples):
             continue
         if fn in SPECIALS:
             parts.append("static void t_%s(int t, Rec& r) {%s\n}\n" % (fn, SPECIALS[fn]))
-            tests.append((fn, ntuples))
+            tests.append((fn, 32 if e.get("opts") else ntuples))    # option structs: the whole power set of NULL / non-NULL arrays
+            continue
+        if e.get("opts"):
+            table_only.append((fn, "takes an options struct but has no hand-written power-set mirror"))
             continue
         if kind != "wrap":
             table_only.append((fn, "kind %s without a hand-written mirror" % kind))
@@ -766,6 +793,8 @@ Eval vm_compute in ("ENUMS"%string, map (fun t => fst (fst t)) (filter (fun t =>
                     map (fun t => fst (fst t)) (filter (fun t => negb (enum_to_ok c_enums cxx_enums t)) enum_to),
                     enum_roundtrip_ok enum_from enum_to, enums_covered c_enums enum_from enum_to, forallb vec_conv_ok vec_convs).
 Eval vm_compute in ("COMPLETE"%string, header_only, undeclared).
+Eval vm_compute in ("OPTIONS"%string, map (fun t => fst (fst t)) (filter (fun t => negb (opt_table_ok c_structs t)) opt_tables),
+                    opt_tables_cover option_structs table opt_tables).
 """)
     rc, out = vp.sh(["coqc", "-Q", vp.COQ, "MV", v], cwd=work, timeout=300)
     flat = " ".join(out.split())
@@ -787,6 +816,11 @@ Eval vm_compute in ("COMPLETE"%string, header_only, undeclared).
         for en in re.findall(r'"(\w+)"', m.group(1) + " " + m.group(2)):
             cx.broke("enum_tables_bijective:" + en, "switch table converting %s no longer maps identically named enumerators one to one" % en)
             sus.append("*")
+    m = re.search(r'"OPTIONS"%string, \[(.*?)\]', flat)
+    if m:
+        for fn in re.findall(r'"(\w+)"', m.group(1)):
+            sus.append(fn)
+            cx.broke("options_marshalled_faithfully:" + fn, "an option block of %s no longer guards on the field it copies / routes it to the member of the same name" % fn)
     cx.cov["coq_diagnosis"] = flat[-1500:]
     return sus
 
@@ -846,11 +880,11 @@ def run(cx):
     lines = []
     for fn, k in tests:
         for t in range(k):
-            lines.append("%s %d" % (fn, (t + cx.seed) % 12 if k > 1 else 0))
+            lines.append("%s %d" % (fn, t if k == 32 else (t + cx.seed) % 12 if k > 1 else 0))
     # search aimed at the functions whose table entry no longer passes the Coq checkers: all 12 tuples
     for fn in suspects:
         for fn2, k in tests:
-            if k > 1 and fn2 == fn:
+            if k > 1 and k != 32 and fn2 == fn:
                 lines += ["%s %d" % (fn2, t) for t in range(12) if "%s %d" % (fn2, t) not in lines]
     rng = random.Random(cx.seed * 7919 + 20)
     nprog = cx.pick(10, 200)
@@ -878,7 +912,7 @@ def run(cx):
             p = l.split(" ", 4)
             results[(p[1], p[2])] = (p[3], p[4] if len(p) > 4 else "")
     ndiff, nontriv, seen = 0, 0, set()
-    for (fn, t), (st, rest) in sorted(results.items(), key=lambda kv: (kv[0][0] == "PROG", kv[0])):
+    for (fn, t), (st, rest) in sorted(results.items(), key=lambda kv: (kv[0][0] == "PROG", kv[0][0], int(kv[0][1]) if kv[0][1].lstrip("-").isdigit() else 0)):
         if st == "DIFF" and fn == "PROG":
             ndiff += 1
             args, _, what = rest.partition("|")
